@@ -756,6 +756,15 @@ orc_compiler_check_sizes (OrcCompiler *compiler)
         return;
       }
     }
+    /* ... and so must the results (x2 convslq would write 16 bytes) */
+    for(j=0;j<ORC_STATIC_OPCODE_N_DEST;j++){
+      if (multiplier * opcode->dest_size[j] > ORC_MAX_VAR_SIZE) {
+        ORC_COMPILER_ERROR (compiler, "opcode %s: x%d of a %d-byte result",
+            opcode->name, multiplier, opcode->dest_size[j]);
+        compiler->result = ORC_COMPILE_RESULT_UNKNOWN_PARSE;
+        return;
+      }
+    }
     /* array loads read arrays, stores write destination arrays */
     if ((opcode->flags & ORC_STATIC_OPCODE_LOAD) &&
         !(opcode->flags & ORC_STATIC_OPCODE_INVARIANT) &&
